@@ -42,6 +42,8 @@ class Ctx:
         self.violations = []
         self.violation_count = 0
         self._viol_kinds = Counter()
+        self._viol_slots = Counter()
+        self.classifier = None
         self.harness_errors = []
         self.truncated = False
         self.exhausted = {}      # name -> bool: finite space fully enumerated by this shard's slice
@@ -90,10 +92,17 @@ class Ctx:
         """Record a violation of the property (the run continues, to find more)."""
         self.violation_count += 1
         self._viol_kinds[kind] += 1
-        if self._viol_kinds[kind] <= 3 and len(self.violations) < 40:
-            cur = self.current or (None, None)
-            self.violations.append(dict(kind=kind, detail=detail, check=check or cur[0],
-                                        case=case if case is not None else cur[1]))
+        cur = self.current or (None, None)
+        v = dict(kind=kind, detail=detail, check=check or cur[0], case=case if case is not None else cur[1])
+        # at most 3 recorded per (kind, known-finding key): a listed finding must never use up the slots of another
+        # mechanism that happens to show under the same kind
+        try:
+            key = self.classifier(v) if self.classifier is not None else None
+        except Exception:  # noqa - a classifier problem must not hide the violation
+            key = None
+        self._viol_slots[(kind, key)] += 1
+        if self._viol_slots[(kind, key)] <= 3 and len(self.violations) < 60:
+            self.violations.append(v)
 
     def result(self):
         import numpy as np
@@ -131,6 +140,7 @@ def worker_main(pid, tier, seed, shard, nshards, budget_s, out):
     import_dsw()
     mod = load_prop(pid)
     ctx = Ctx(pid, tier, seed, shard, nshards, budget_s)
+    ctx.classifier = getattr(load_prop(pid), "classify", None)
     if getattr(mod, "SPECIAL_SHARD", False):
         ctx.nreg = nshards - 1
         ctx.special = shard == nshards - 1
